@@ -29,7 +29,7 @@ DRIVERS = ["Xml"]
 TABLES = True
 LEVEL = "proof"
 RULE = ("(a) every fragment (.capella/.aird/.afm, Capella 5.0/5.2/6.0, projects and libraries) of the corpus under "
-        "tests/data [quick: the models below 100 kB per file]; (b) trees derived from corpus elements (element + its "
+        "tests/data [quick: the files below 400 kB]; (b) trees derived from corpus elements (element + its "
         "ancestor chain) by: sweeping one attribute value over every length 0..100 (column crosses 70..90), strings over "
         "an alphabet of every escapable character plus > ' TAB LF CR ]]> U+0080-9F U+2028 astral code points in attribute "
         "values and text, comments before/after the root, namespaces added/removed/declared on children, bodies "
@@ -70,17 +70,53 @@ XSI = "http://www.w3.org/2001/XMLSchema-instance"
 # ------------------------------------------------------------------ model driver
 
 
+DRIVER_MODULES = ["Capella/Model/Xml", "Capella/Model/XmlParse", "Capella/Model/XmlSpec", "Capella/Driver/Util",
+                  "Capella/Driver/Xml"]
+
+
+def native_driver() -> list[str] | None:
+    """The Xml driver compiled to a native executable by Lean's own compiler (`leanc` on the C files `lake build`
+    already produced): 10-15x faster than `lean --run`. Cached under .lake/build/bin, rebuilt when a module
+    changes; None (-> interpreter) if anything about this fails."""
+    import fcntl
+    import hashlib
+    import subprocess
+
+    ir = common.LEAN / ".lake" / "build" / "ir"
+    try:
+        key = hashlib.sha256(b"".join((ir / (m + ".c.hash")).read_bytes() for m in DRIVER_MODULES)).hexdigest()[:16]
+        bindir = common.LEAN / ".lake" / "build" / "bin"
+        bindir.mkdir(parents=True, exist_ok=True)
+        exe = bindir / f"xmldrv-{key}"
+        with open(bindir / "xmldrv.lock", "w") as lk:
+            fcntl.flock(lk, fcntl.LOCK_EX)
+            if not exe.exists():
+                for old in bindir.glob("xmldrv-*"):
+                    old.unlink()
+                tmp = bindir / f"xmldrv-{key}.tmp"
+                p = subprocess.run(["leanc", "-O2", "-o", str(tmp), *[str(ir / (m + ".c")) for m in DRIVER_MODULES]],
+                                   capture_output=True, timeout=600)
+                if p.returncode != 0 or not tmp.exists():
+                    return None
+                tmp.rename(exe)
+        return [str(exe)]
+    except (OSError, subprocess.SubprocessError):
+        return None
+
+
 def run_model(lines: list[dict], driver: str = "Xml", timeout: int = 3000) -> list:
     """`common.model`, but answers are split on "\n" only: the model's output legitimately contains U+0085,
-    U+2028, U+001C... which `str.splitlines()` (used by common.model) treats as line ends."""
+    U+2028, U+001C... which `str.splitlines()` (used by common.model) treats as line ends; and the driver runs
+    natively compiled when possible."""
     import subprocess
 
     if not lines:
         return []
     payload = "\n".join(json.dumps(l, ensure_ascii=True, separators=(",", ":")) for l in lines) + "\n"
+    cmd = (native_driver() if os.environ.get("VERIF_INTERPRET") != "1" else None) or \
+        ["lake", "env", "lean", "--run", f"Capella/Driver/{driver}.lean"]
     try:
-        p = subprocess.run(["lake", "env", "lean", "--run", f"Capella/Driver/{driver}.lean"], cwd=common.LEAN,
-                           capture_output=True, timeout=timeout, input=payload.encode("utf-8"),
+        p = subprocess.run(cmd, cwd=common.LEAN, capture_output=True, timeout=timeout, input=payload.encode("utf-8"),
                            env={k: v for k, v in os.environ.items() if k != "PYTHONPATH"})
     except subprocess.TimeoutExpired:
         raise common.InfraError("model driver timed out") from None
@@ -113,7 +149,7 @@ def corpus_files(ctx: Ctx) -> list[pathlib.Path]:
     _, _, core = impl()
     files = sorted(p for p in (common.REPO / "tests" / "data").rglob("*") if p.suffix in core.VALID_EXTS)
     if not ctx.thorough:
-        files = [p for p in files if p.stat().st_size < 100_000]
+        files = [p for p in files if p.stat().st_size < 400_000]
     return files
 
 
@@ -385,7 +421,7 @@ class Cases:
         self.meta.append(("serialize:" + label.split(":")[0], {"label": label, "ll": ll, "doc": doc, "pns": pns, "siblings": sib}, iv))
         shaped_py = parent is None and capella_shaped(doc)
         self.n_emit = getattr(self, "n_emit", 0) + 1
-        if parent is None and sib and (not label.startswith("sweep") or self.n_emit % 6 == 0):
+        if parent is None and sib and (not label.startswith("sweep") or self.n_emit % 2 == 0):
             # the statements of the round-trip theorems, evaluated by the model on this very tree; and the
             # Lean predicate wfDoc against the harness' own reading of "Capella-shaped"
             self.req.append({"op": "xml.roundtrip", "ll": ll, "doc": doc})
@@ -477,7 +513,7 @@ class Cases:
                 new.set("name", s)
                 label = "chars:attr"
             else:
-                leaf = etree.SubElement(new, rng.choice(["bodies", "semanticResources", "languages"]))
+                leaf = etree.SubElement(new, rng.choice(["bodies", "semanticResources", "languages", rng.choice(TAGS)]))
                 leaf.text = s if s.strip() else "x" + s
                 label = "chars:text"
             self.emit(root.getroottree(), rll(rng), label)
@@ -594,6 +630,9 @@ class Cases:
 
 def run(ctx: Ctx) -> Outcome:
     etree, exs, core = impl()
+    for t in sorted(exs.ALWAYS_EXPANDED_TAGS):  # whatever the code expands today is generated, too
+        if t not in TAGS:
+            TAGS.append(t)
     out = Outcome(rule=RULE)
     cs = Cases(ctx, out)
     rng = ctx.rng
@@ -630,13 +669,13 @@ def run(ctx: Ctx) -> Outcome:
             pool.extend([x for x in root.iter() if isinstance(x.tag, str)][: ctx.pick(1500, 20000)])
 
     # ---- (b) derived trees
-    cs.gen_sweeps(pool, ctx.pick(10, 120))
-    cs.gen_chars(pool, ctx.pick(500, 8000))
-    cs.gen_comments(pool, ctx.pick(60, 600))
-    cs.gen_namespaces(pool, ctx.pick(150, 2000))
-    cs.gen_unshaped(pool, ctx.pick(150, 2000))
-    cs.gen_synth(ctx.pick(250, 4000))
-    cs.gen_subelems(pool, ctx.pick(150, 2000))
+    cs.gen_sweeps(pool, ctx.pick(30, 150))
+    cs.gen_chars(pool, ctx.pick(1500, 10000))
+    cs.gen_comments(pool, ctx.pick(150, 800))
+    cs.gen_namespaces(pool, ctx.pick(400, 3000))
+    cs.gen_unshaped(pool, ctx.pick(300, 3000))
+    cs.gen_synth(ctx.pick(800, 6000))
+    cs.gen_subelems(pool, ctx.pick(300, 3000))
 
     # ---- (c) _escape
     import inspect
